@@ -184,9 +184,10 @@ def build_site(site):
         return seq, variants, alns, exp
 
     # two variants at distance D: the lock-step walk over CIGAR and variant list
-    _, k1, k2, D, seed = site
-    seq = synth.make_unshiftable(synth.make_reference(seed, 260), [(V, k1, 1), (V + D, k2, 1)])
-    v1 = synth.make_variant(seq, V, k1, 1)
+    _, k1, k2, D, seed = site[:5]
+    len1 = site[5] if len(site) > 5 else 1
+    seq = synth.make_unshiftable(synth.make_reference(seed, 260), [(V, k1, len1), (V + D, k2, 1)])
+    v1 = synth.make_variant(seq, V, k1, len1)
     v2 = synth.make_variant(seq, V + D, k2, 1)
     variants = [v1, v2]
     f2 = v2.pos + len(v2.ref)
@@ -233,6 +234,15 @@ def sites(tier):
                 if k1 == "DEL" and D < 2:
                     continue
                 out.append(("pair", k1, k2, D, seed0 + rep))
+        # a longer first indel followed closely by a second variant
+        for k1, k2 in (("INS", "INS"), ("INS", "SNV"), ("INS", "DEL"), ("DEL", "INS"), ("DEL", "SNV"), ("DEL", "DEL")):
+            for len1 in (1, 2, 3):
+                for D in (1, 2, 3, 4, 5, 8):
+                    if k1 == "DEL" and D < len1 + 1:
+                        continue
+                    if (k1, k2, len1) in (("INS", "SNV", 1), ("INS", "DEL", 1), ("DEL", "INS", 1), ("DEL", "SNV", 1)):
+                        continue
+                    out.append(("pair", k1, k2, D, seed0 + rep, len1))
     return out
 
 
